@@ -59,6 +59,17 @@ CATALOGUE = {
                                   "    @override(ExtensibleType)\n    def ahead_nbits(self) -> int:\n        return 8\n\n    @override(Type)\n    @cache_if_frozen\n    def nbits(self) -> int:\n        n = sum(")],
                 "extensible message size counts an 8-bit prefix"),
     "py-int16-threshold": (["C02", "C14"], [("lib/py/bitprotolib/bp.py", "return i if i < 32768 else i - 65536", "return i if i <= 32768 else i - 65536")], "int16(0x8000) stays positive"),
+    "lookup-sees-importer": (["C11"], [("compiler/bitproto/parser.py", "for scope in self.scope_stack_in_current_proto()[::-1]:", "for scope in self.scope_stack[::-1]:")],
+                             "name lookup in an imported file continues into the importing file's scopes"),
+    "lookup-first-import-wins": (["C11"], [("compiler/bitproto/_ast.py", "        member = self.members.get(first, None)\n        if member is None:\n            return None\n\n        if not remain:\n            return member\n",
+                                            "        member = self.members.get(first, None)\n        if member is None:\n            return None\n\n        if not remain:\n            return member\n        if isinstance(member, Scope) and member.get_member(*remain) is None and len(remain) == 1:\n            for m2 in self.members.values():\n                if isinstance(m2, Scope) and m2 is not member and m2.get_member(*remain) is not None and type(m2) is type(member):\n                    return m2.get_member(*remain)\n")],
+                                 "a dotted path whose last component is missing falls back to a sibling scope that has it"),
+    "emit-order-set": (["C18"], [("compiler/bitproto/_ast.py", "        for item in self.members.items():\n            name, member = item\n            if bound:",
+                                  "        for item in (sorted(self.members.items(), key=lambda kv: hash(kv[0])) if len(self.members) > 5 else self.members.items()):\n            name, member = item\n            if bound:")],
+                       "emission order of larger scopes follows string hashes"),
+    "name-cache-by-id": (["C18"], [("compiler/bitproto/renderer/formatter.py", "    def _get_definition_name(self, d: Definition) -> str:\n        \"\"\"Get definition name, name defined in its scope or its original name.\"\"\"\n",
+                                    "    _NAME_CACHE: dict = {}\n\n    def _get_definition_name(self, d: Definition) -> str:\n        \"\"\"Get definition name, name defined in its scope or its original name.\"\"\"\n        if id(d) in Formatter._NAME_CACHE:\n            return Formatter._NAME_CACHE[id(d)]\n        Formatter._NAME_CACHE[id(d)] = d.scope_stack[-1].get_name_by_member(d) or d.name if d.scope_stack else d.name\n        return Formatter._NAME_CACHE[id(d)]\n")],
+                         "process-global name cache keyed by id(): ids are reused after garbage collection"),
     "json-c-comma": (["C16"], [("lib/c/bitproto.c", "        if (k + 1 < descriptor->cap) {\n            BpJsonFormatString(ctx, \",\");", "        if (k + 2 < descriptor->cap) {\n            BpJsonFormatString(ctx, \",\");")],
                      "C JSON arrays lose the last comma"),
     "json-py-drop-proxy-filter": (["C16"], [("compiler/bitproto/renderer/impls/py/renderer.py", "if not k.startswith('{_enum_field_proxy_prefix}')", "if True")],
